@@ -11,5 +11,7 @@ func Specs() map[string]*PropSpec {
 		m[s.ID] = s
 	}
 	add(&PropSpec{ID: "C05", Explanation: "lockset discipline", Rules: []RuleRef{rR15, rR14pair}})
+	add(&PropSpec{ID: "C13", Explanation: "deadlock freedom", Rules: []RuleRef{rR14pair, rR14order, rR15m}})
+	add(&PropSpec{ID: "C06", Explanation: "lazy expiry", Rules: []RuleRef{rR21, rR22}})
 	return m
 }
